@@ -16,5 +16,6 @@ CONSTANTS
   OwnVary <- MCOwnVary
   MaxReqs = 3
   WrongDesign = "none"
+  SameObj = TRUE
   MaxFaults = 3
 INVARIANT Emit
